@@ -378,6 +378,75 @@ func TestC16Stream(t *testing.T) {
 			c.Fail(ev.Sig{"op": "bubble-leak"}, nil, nil, "goroutines left blocked: %s", leak)
 		}
 	})
+	// the client role on an association: an sm.Client with the watchdog enabled (on a stream of
+	// its choice) answers the DWRs its peer sends on whatever stream they arrive
+	cstreams := []uint16{0, 1, 3, 9, 65535}
+	rec.Suite("client-dwa-stream", len(cstreams)*2, func(c *ev.Case) {
+		wd := uint(cstreams[c.I%len(cstreams)])
+		if wd == 65535 {
+			wd = 7
+		}
+		c.Class("client-dwa-stream/watchdog-stream=%d/watchdog=%v", wd, c.I/len(cstreams) == 0)
+		leak := runBubbleWD(t, rec, c, 60*time.Second, func() {
+			sig := func(op string) ev.Sig { return ev.Sig{"op": op, "what": "DWA (client role)"} }
+			machine := sm.New(&sm.Settings{OriginHost: "cli.local", OriginRealm: "realm.local", VendorID: 13, ProductName: "verif",
+				HostIPAddresses: []datatype.Address{datatype.Address([]byte{192, 0, 2, 9})}})
+			cli := &sm.Client{Dict: ctx.Parser, Handler: machine, MaxRetransmits: 1, RetransmitInterval: time.Second,
+				EnableWatchdog: c.I/len(cstreams) == 0, WatchdogInterval: time.Hour, WatchdogStream: wd,
+				AuthApplicationID: []*diam.AVP{diam.NewAVP(258, 0x40, 0, datatype.Unsigned32(4))}}
+			assoc := sctpmem.New()
+			msc := diam.VerifNewSCTPConn(assoc)
+			defer diam.VerifRelease(msc)
+			var conn diam.Conn
+			var derr error
+			done := make(chan struct{})
+			go func() {
+				conn, derr = cli.NewConn(msc, "peer:3868")
+				close(done)
+			}()
+			synctest.Wait()
+			ws := assoc.Writes()
+			if len(ws) != 1 {
+				c.Fail(sig("setup"), nil, nil, "%d writes before the CEA", len(ws))
+				return
+			}
+			h := peer.Header(ws[0].Data)
+			assoc.Feed(ws[0].Stream, peer.StdCEA(h.HopByHop, h.EndToEnd, 2001, 4))
+			<-done
+			synctest.Wait()
+			if derr != nil || conn == nil {
+				c.Fail(sig("setup"), nil, nil, "handshake over the association failed: %v", derr)
+				return
+			}
+			defer func() {
+				assoc.FeedEOF()
+				conn.Close()
+				synctest.Wait()
+			}()
+			for i, st := range []uint16{5, 0, uint16(wd), 9, 15, 65535} {
+				id := uint32(0x5000 + i)
+				n0 := len(assoc.Writes())
+				assoc.Feed(st, peer.DWR(id, ^id))
+				synctest.Wait()
+				ws := assoc.Writes()[n0:]
+				if len(ws) != 1 {
+					c.Fail(sig("answer-count"), nil, nil, "a DWR from the peer on stream %d was answered with %d writes", st, len(ws))
+					return
+				}
+				if !checkAnswer(c, "DWA (client role)", refcodec.Header{Version: 1, Flags: 0x80, Code: 280, HopByHop: id, EndToEnd: ^id}, ws[0].Data, 2001, true) {
+					return
+				}
+				if ws[0].Stream != st {
+					c.Fail(ev.Sig{"op": "answer-stream", "what": "DWA (client role)"}, nil, nil, "the client (watchdog stream %d) answered a DWR that arrived on stream %d on stream %d", wd, st, ws[0].Stream)
+					return
+				}
+			}
+			c.Event("stream_answers_checked", 6)
+		})
+		if leak != "" && !c.Failed() {
+			c.Fail(ev.Sig{"op": "bubble-leak"}, nil, nil, "goroutines left blocked: %s", leak)
+		}
+	})
 	// watchdog answers of one state machine for several peers at the same moment: every DWA mirrors
 	// the request it answers (identifiers, P bit), not another connection's
 	rec.Suite("concurrent-dwas", rec.N(40, 20000), func(c *ev.Case) {
